@@ -304,7 +304,7 @@ def coq_exp(e, defined) -> str:
     return "%s (%s)" % (c, coq_exp(e[1], defined))
 
 
-def to_coq(rules, source_name) -> str:
+def to_coq(rules, source_name, prefix="pdl") -> str:
     defined = {r[0] for r in rules}
     lines = [
         "(** GENERATED by harness/tools/pest2coq.py from the grammar_inline literal of",
@@ -315,7 +315,7 @@ def to_coq(rules, source_name) -> str:
         "Open Scope string_scope.",
         "Open Scope N_scope.",
         "",
-        "Definition pdl_grammar : grammar := [",
+        "Definition %s_grammar : grammar := [" % prefix,
     ]
     body = []
     for name, kind, e in rules:
@@ -323,20 +323,24 @@ def to_coq(rules, source_name) -> str:
     lines.append(";\n".join(body))
     lines.append("].")
     lines.append("")
-    lines.append("Definition pdl_rule_names : list string := [")
+    lines.append("Definition %s_rule_names : list string := [" % prefix)
     lines.append("  " + "; ".join('"%s"' % r[0] for r in rules))
     lines.append("].")
     lines.append("")
     return "\n".join(lines)
 
 
-def translate(rust_source: str, source_name: str) -> str:
-    text = extract_grammar(rust_source)
+def translate_grammar(text: str, source_name: str, prefix="pdl") -> str:
+    """pest grammar text -> Coq source defining <prefix>_grammar and <prefix>_rule_names"""
     rules = Parser(lex(text)).rules()
     if not rules:
         raise Unsupported("the grammar has no rules")
     resolve(rules)
-    return to_coq(rules, source_name)
+    return to_coq(rules, source_name, prefix)
+
+
+def translate(rust_source: str, source_name: str) -> str:
+    return translate_grammar(extract_grammar(rust_source), source_name)
 
 
 def main(argv):
